@@ -36,6 +36,7 @@ type State struct {
 	ghost *ghostNode
 	gepoch int
 	kepoch *ghostNode // per-kind epochs (name = kind, val = const epoch)
+	lastHead *State   // state at the head of the loop iteration this path is in (cut loops)
 }
 
 func (st State) assume(t *Term) State {
